@@ -14,8 +14,11 @@ import (
 	"github.com/icon-project/goloop/common/codec"
 	"github.com/icon-project/goloop/common/crypto"
 	"github.com/icon-project/goloop/consensus"
+	"github.com/icon-project/goloop/consensus/fastsync"
 	"github.com/icon-project/goloop/module"
 )
+
+func cryptoSHA3(b []byte) []byte { return crypto.SHA3Sum256(b) }
 
 // byzantine is the adversary. A Byzantine validator is a real node (so that it
 // follows the chain and produces well-formed, correctly signed messages) whose
@@ -48,6 +51,8 @@ type byzantine struct {
 	partSets    map[string]consensus.PartSet // height/psid-hash -> parts seen on the wire
 	partSetKeys map[int64][]string
 	forgedAt    map[string]*forgedInfo // "height/round" of a forged proposal
+	fsst        *fsState               // fast-sync lies (fastsync.go)
+	fastsync    bool
 	rawBlocks   map[int64][][]byte // height -> complete block encodings seen on the wire (valid proposals of anybody)
 }
 
@@ -310,6 +315,8 @@ func (b *byzantine) rewriteBatch(src *node, ms []outMsg) []routed {
 				}
 				out = append(out, routed{d, mm})
 			}
+		case b.fastsync && m.proto == module.ProtoFastSync && m.kind == sendUnicast && (m.sub == fastsync.ProtoBlockMetadata || m.sub == fastsync.ProtoBlockData):
+			out = append(out, routed{nil, b.rewriteFastSync(src, m)})
 		default:
 			if b.withholdPm > 0 && t.Permille("byz.withhold", b.withholdPm) {
 				s.rc.Fault("byz_withhold")
